@@ -99,7 +99,10 @@ SmallOr(t) == Small(t) \cup
 SeqsUpTo(P, n) == UNION { [1..m -> P] : m \in 1..n }
 AsSeq(f) == [i \in 1..Len(f) |-> f[i]]
 
-Exh(ty, P, n) == { [ty |-> ty, M |-> AsSeq(f)] : f \in SeqsUpTo(P, n) }
+\* sfx: u8 literals are written with the type suffix (`0u8`): the analysis then works on u8 ranges
+\* instead of u64 ("numeric") ranges; the meaning is the same
+Exh(ty, P, n) == { [ty |-> ty, sfx |-> FALSE, M |-> AsSeq(f)] : f \in SeqsUpTo(P, n) }
+ExhS(ty, P, n) == { [ty |-> ty, sfx |-> TRUE, M |-> AsSeq(f)] : f \in SeqsUpTo(P, n) }
 (***************************************************************************)
 (* Random matrices over the full depth-2 pattern language (binders and     *)
 (* nested or-patterns anywhere, literals from L5, every way of writing a   *)
@@ -108,6 +111,21 @@ Exh(ty, P, n) == { [ty |-> ty, M |-> AsSeq(f)] : f \in SeqsUpTo(P, n) }
 (* the draw is a function of the -seed given on the command line (fixed by *)
 (* the driver), so the pool is finite and deterministic.                   *)
 (***************************************************************************)
+\* a copy of p with the same binders in the same places and the other leaves redrawn
+RECURSIVE Mut(_, _)
+Mut(p, t) ==
+    CASE p.k = "bind" -> p
+      [] p.k = "wild" \/ p.k = "bool" \/ p.k = "lit" ->
+            IF t.k = "bool" /\ RandomElement(1..3) # 1 THEN [k |-> "bool", v |-> RandomElement(BOOLEAN)]
+            ELSE IF t.k = "u8" /\ RandomElement(1..3) # 1 THEN Lit(RandomElement(L5))
+            ELSE Wild
+      [] p.k = "tuple" -> [k |-> "tuple", ps |-> [i \in DOMAIN p.ps |-> Mut(p.ps[i], t.ts[i])]]
+      [] p.k = "struct" ->
+            [k |-> "struct", name |-> p.name, rest |-> p.rest,
+             fs |-> [j \in DOMAIN p.fs |-> [i |-> p.fs[j].i, p |-> Mut(p.fs[j].p, t.ts[p.fs[j].i])]]]
+      [] p.k = "variant" -> [k |-> "variant", name |-> p.name, v |-> p.v, p |-> Mut(p.p, t.ts[p.v + 1])]
+      [] OTHER -> p
+
 RECURSIVE RP(_, _, _, _, _, _)
 \* top: the pattern is a whole arm (or an alternative of one): irrefutable patterns are drawn rarely
 \* there, because they make everything below them dead
@@ -118,8 +136,13 @@ RP(t, d, nm, b, o, top) ==
         bindW == wildW + (IF ~b THEN 0 ELSE IF top THEN 3 ELSE 8)
     IN
     IF r <= orW THEN
-        LET n == IF RandomElement(1..4) = 1 THEN 3 ELSE 2
-        IN [k |-> "or", ps |-> [i \in 1..n |-> RP(t, d, "", FALSE, (d > 0) /\ RandomElement(1..4) = 1, top)]]
+        LET n == IF RandomElement(1..4) = 1 THEN 3 ELSE 2 IN
+        IF b /\ RandomElement(1..3) = 1 THEN
+            \* alternatives that bind the same variables: the first is drawn with binders (and without
+            \* nested or-patterns), the others are copies of it with the refutable leaves redrawn
+            LET first == RP(t, d, nm, TRUE, FALSE, top)
+            IN [k |-> "or", ps |-> [i \in 1..n |-> IF i = 1 THEN first ELSE Mut(first, t)]]
+        ELSE [k |-> "or", ps |-> [i \in 1..n |-> RP(t, d, "", FALSE, (d > 0) /\ RandomElement(1..4) = 1, top)]]
     ELSE IF r <= wildW THEN Wild
     ELSE IF r <= bindW THEN Bind(nm)
     ELSE CASE t.k = "bool" -> [k |-> "bool", v |-> RandomElement(BOOLEAN)]
@@ -138,17 +161,19 @@ RP(t, d, nm, b, o, top) ==
                 [k |-> "variant", name |-> t.name, v |-> i - 1,
                  p |-> IF t.ts[i].k = "unit" THEN Wild ELSE RP(t.ts[i], d - 1, nm \o ToString(i), b, o, FALSE)]
 
-\* one random matrix with 2..n arms; one matrix in three is free of or-patterns
+\* one random matrix with 2..n arms; one matrix in three is free of or-patterns; one in four writes
+\* its u8 literals with the type suffix
 RM(ty, n) ==
     LET len == RandomElement(2..n)
         o == RandomElement(1..3) # 1
-    IN [ty |-> ty, M |-> [i \in 1..len |-> RP(Types[ty], 2, "b", TRUE, o, TRUE)]]
+    IN [ty |-> ty, sfx |-> (RandomElement(1..4) = 1), M |-> [i \in 1..len |-> RP(Types[ty], 2, "b", TRUE, o, TRUE)]]
 Rnd(ty, n) == { RM(ty, n) : i \in 1..NRand }
 
 \* (an operator, not a constant: TLC evaluates constant definitions eagerly at start-up)
 Pool(s) ==
     CASE s = "x_bool" -> Exh("bool", SmallOr(TBool), 3)
       [] s = "x_u8"   -> Exh("u8", SmallOr(TU8), 2)
+      [] s = "x_u8s"  -> ExhS("u8", SmallOr(TU8), 2)
       [] s = "x_Ea"   -> Exh("Ea", Small(Ea), 3)
       [] s = "x_bb"   -> Exh("bb", Small(Types["bb"]), 3)
       [] s = "x_bu"   -> Exh("bu", Small(Types["bu"]), 3)
@@ -158,16 +183,16 @@ Pool(s) ==
       [] s = "x_Ec"   -> Exh("Ec", Small(Ec), 2)
       [] s = "x_bbb"  -> Exh("bbb", Small(Types["bbb"]), 2)
       [] s = "x_Sb"   -> Exh("Sb", Small(Sb), 1)
-      [] s = "r_u8"   -> Rnd("u8", 4)
-      [] s = "r_Ea"   -> Rnd("Ea", 4)
+      [] s = "r_u8"   -> Rnd("u8", 5)
+      [] s = "r_Ea"   -> Rnd("Ea", 5)
       [] s = "r_Eb"   -> Rnd("Eb", 4)
       [] s = "r_Ec"   -> Rnd("Ec", 4)
       [] s = "r_Sa"   -> Rnd("Sa", 4)
       [] s = "r_Sb"   -> Rnd("Sb", 4)
-      [] s = "r_bb"   -> Rnd("bb", 4)
-      [] s = "r_bu"   -> Rnd("bu", 4)
+      [] s = "r_bb"   -> Rnd("bb", 5)
+      [] s = "r_bu"   -> Rnd("bu", 5)
       [] s = "r_eb"   -> Rnd("eb", 4)
-      [] s = "r_bbb"  -> Rnd("bbb", 4)
+      [] s = "r_bbb"  -> Rnd("bbb", 5)
       [] s = "r_uu"   -> Rnd("uu", 4)
       [] s = "r_es"   -> Rnd("es", 3)
       [] s = "r_tbb"  -> Rnd("tbb", 4)
@@ -247,7 +272,7 @@ Record ==
     LET M == m.M
         tb == Table(M, T)
         vs == SE!SetToSeq(DOMAIN tb)
-    IN [ ty |-> m.ty, t |-> T, M |-> M,
+    IN [ ty |-> m.ty, sfx |-> m.sfx, t |-> T, M |-> M,
          exh |-> TExh(tb),
          unreach |-> TUnreach(M, tb),
          vals |-> vs,
